@@ -151,6 +151,94 @@ def run_history(h):
     return None
 
 
+def shared_hook_case():
+    """two different callbacks that share one hook FUNCTION are still two callbacks: each gets its own calls"""
+    from dask.callbacks import Callback
+    import dask.local as L
+    import dask.threaded as TH
+    from dask._task_spec import Task, TaskRef
+
+    calls = []
+
+    def tick(key, dsk, state):
+        calls.append(("pre", key))
+
+    def tock(key, res, dsk, state, wid):
+        calls.append(("post", key))
+
+    fin = []
+    a = Callback(pretask=tick, posttask=tock, finish=lambda d, s, f: fin.append("a"))
+    b = Callback(pretask=tick, posttask=tock, start=lambda d: fin.append("b-start"))
+    dsk = {"x": Task("x", int), "y": Task("y", lambda v: v + 1, TaskRef("x"))}
+    Callback.active = set()
+    try:
+        for how, run in (("get_sync", lambda: L.get_sync(dsk, "y")), ("threaded.get", lambda: TH.get(dsk, "y", num_workers=2))):
+            for mode in ("nested contexts", "registered + context"):
+                calls.clear()
+                if mode == "nested contexts":
+                    with a:
+                        with b:
+                            run()
+                else:
+                    a.register()
+                    try:
+                        with b:
+                            run()
+                    finally:
+                        a.unregister()
+                for key in ("x", "y"):
+                    n_pre, n_post = calls.count(("pre", key)), calls.count(("post", key))
+                    if n_pre != 2 or n_post != 2:
+                        return f"{how}, {mode}: two active callbacks share their pretask/posttask functions; task {key!r} got {n_pre} pretask and {n_post} posttask calls, expected 2 and 2"
+    finally:
+        Callback.active = set()
+    return None
+
+
+def flaky_rerun_case():
+    """rerun_exceptions_locally with a task that fails on the worker and passes when re-run: every executed task still gets
+    exactly one pretask before exactly one posttask, and finish runs once"""
+    import threading
+
+    import dask
+    import dask.threaded as TH
+    from dask.callbacks import Callback
+    from dask._task_spec import Task, TaskRef
+
+    main = threading.main_thread()
+
+    def flaky():
+        if threading.current_thread() is not main:
+            raise RuntimeError("only fails off the main thread")
+        return 5
+
+    log = []
+    cb = Callback(pretask=lambda k, d, s: log.append(("pre", k)), posttask=lambda k, r, d, s, w: log.append(("post", k)), finish=lambda d, s, f: log.append(("finish", f)))
+    dsk = {"a": Task("a", flaky), "b": Task("b", lambda v: 1, TaskRef("a"))}
+    Callback.active = set()
+    try:
+        for how in ("argument", "config"):
+            log.clear()
+            try:
+                with cb:
+                    if how == "argument":
+                        TH.get(dsk, "b", num_workers=2, rerun_exceptions_locally=True)
+                    else:
+                        with dask.config.set(rerun_exceptions_locally=True):
+                            TH.get(dsk, "b", num_workers=2)
+            except Exception:  # noqa  (whether the call recovers or raises is not what is checked here)
+                pass
+            for key in ("a", "b"):
+                n_pre, n_post = log.count(("pre", key)), log.count(("post", key))
+                if n_pre > 1 or n_post > n_pre or (n_pre == 1 and n_post == 0 and ("post", "b") in log):
+                    return f"rerun_exceptions_locally ({how}): task {key!r} got {n_pre} pretask and {n_post} posttask calls although its dependent ran: {log}"
+            if sum(1 for e in log if e[0] == "finish") != 1:
+                return f"rerun_exceptions_locally ({how}): finish callbacks ran {sum(1 for e in log if e[0] == 'finish')} times: {log}"
+    finally:
+        Callback.active = set()
+    return None
+
+
 def sweep(tier, seed=0, length=None):
     import time
 
@@ -159,6 +247,14 @@ def sweep(tier, seed=0, length=None):
     cases = 0
     fails = []
     sample = None
+    for name, case in (("two callbacks sharing their hook functions", shared_hook_case), ("flaky task with rerun_exceptions_locally", flaky_rerun_case)):
+        cases += 1
+        try:
+            msg = case()
+        except Exception as e:  # noqa
+            msg = f"{type(e).__name__}: {e}"
+        if msg:
+            fails.append(rtc.Failure("get_async", {"scenario": name}, "ensures", "C05-every-active-callback-sees-every-task", msg))
     for h in histories(2, length):
         cases += 1
         if sample is None and len(h) == 3:
@@ -181,5 +277,8 @@ def sweep(tier, seed=0, length=None):
 
 def replay(native):
     args = eval(native["args_repr"])
+    if "scenario" in args:
+        msg = shared_hook_case() if "sharing" in args["scenario"] else flaky_rerun_case()
+        return {"reproduced": True, "detail": msg} if msg else None
     msg = run_history(tuple(args["history"]))
     return {"reproduced": True, "detail": msg} if msg else None
